@@ -135,6 +135,8 @@ func checkC16(c *Ctx) {
 	ruleNoCrossTalk(c, dv)
 	ruleClientClosed(c, dv, "R16.8")
 	ruleNoStrayGoroutines(c, dv)
+	ruleInputConsumed(c, dv, "R16.10")
+	c.MinCount("R16.10", 1)
 	c.MinCount("R16.1", 6)
 	c.MinCount("R16.2", 4)
 	c.MinCount("R16.3", 4)
@@ -1131,6 +1133,130 @@ func headerExitsFrom(header, pred *ssa.BasicBlock, body map[*ssa.BasicBlock]bool
 			taken = header.Succs[0]
 		}
 		return !body[taken]
+	}
+	return false
+}
+
+// ruleInputConsumed: R16.10. The device's MIDI-input channel is an output of the fan-out, which delivers with a blocking
+// send under its lock: a device that stops receiving while it is attached stalls the MIDI input of every device after a
+// few messages, and its own detach. So the consumer (handleInputEvents and what runs on its behalf) may end only by
+// observing the cancellation (or the end of its input): no return is reachable from its entry without passing the code
+// of a cancellation case.
+func ruleInputConsumed(c *Ctx, dv *dev, rule string) {
+	fn := dv.fn["handleInputEvents"]
+	if fn == nil || len(fn.Blocks) == 0 {
+		return
+	}
+	key := "device.handleInputEvents/ends-only-on-cancellation"
+	pos := c.P.Pos(fn.Pos())
+	midiIn := dv.fields["midiIn"]
+	cut := map[*ssa.BasicBlock]bool{}
+	receives := 0
+	for _, b := range fn.Blocks {
+		for _, in := range b.Instrs {
+			switch x := in.(type) {
+			case *ssa.Select:
+				for k, st := range x.States {
+					if st.Dir != types.RecvOnly {
+						continue
+					}
+					if midiIn != nil && derivesFromField(st.Chan, midiIn, map[ssa.Value]bool{}) {
+						receives++
+					}
+					if isCtxDone(st.Chan) {
+						if cb := selectCaseBlock(x, k); cb != nil {
+							cut[cb] = true
+						}
+					}
+				}
+			case *ssa.UnOp:
+				if x.Op != token.ARROW {
+					continue
+				}
+				if midiIn != nil && derivesFromField(x.X, midiIn, map[ssa.Value]bool{}) {
+					receives++
+					// `ev, ok := <-d.midiIn; if !ok { return }`: the closed-channel branch is an end of the input
+					if x.CommaOk && x.Referrers() != nil {
+						for _, r := range *x.Referrers() {
+							if ex, isEx := r.(*ssa.Extract); isEx && ex.Index == 1 && ex.Referrers() != nil {
+								for _, rr := range *ex.Referrers() {
+									if ifi, isIf := rr.(*ssa.If); isIf {
+										cut[ifi.Block().Succs[1]] = true
+									}
+								}
+							}
+						}
+					}
+				}
+				if isCtxDone(x.X) {
+					// a plain blocking `<-ctx.Done()`: whatever follows has observed the cancellation
+					if len(b.Succs) > 0 {
+						for _, s := range b.Succs {
+							cut[s] = true
+						}
+					} else {
+						cut[b] = true
+					}
+				}
+			case *ssa.Range:
+				if midiIn != nil && derivesFromField(x.X, midiIn, map[ssa.Value]bool{}) {
+					receives++
+				}
+			}
+		}
+	}
+	if receives == 0 {
+		c.Bad(rule, key, pos, "the device never receives from its MIDI-input channel: the fan-out blocks on it after the channel's buffer is full")
+		return
+	}
+	// is a return reachable from the entry without entering a cancellation block?
+	seen := map[*ssa.BasicBlock]bool{}
+	stack := []*ssa.BasicBlock{fn.Blocks[0]}
+	var early *ssa.BasicBlock
+	for len(stack) > 0 && early == nil {
+		b := stack[len(stack)-1]
+		stack = stack[:len(stack)-1]
+		if seen[b] || cut[b] || b == fn.Recover {
+			continue
+		}
+		seen[b] = true
+		if _, isRet := b.Instrs[len(b.Instrs)-1].(*ssa.Return); isRet {
+			early = b
+			break
+		}
+		// a `for range d.midiIn` loop leaves through the exhausted channel: that exit is an end of the input
+		stack = append(stack, b.Succs...)
+	}
+	if early != nil && rangeOverInputEnds(early, midiIn) {
+		early = nil
+	}
+	if early != nil {
+		c.Bad(rule, key, c.P.Pos(firstPos(early)), "the MIDI-input consumer can return without having observed the cancellation or the end of its input: the device stays attached to the fan-out, whose blocking delivery then stalls the MIDI input of every device")
+		return
+	}
+	c.OK(rule, key, pos, fmt.Sprintf("%d receive site(s); every return lies behind a cancellation case (or the closed input)", receives))
+}
+
+// rangeOverInputEnds: b is only reached through the exit edge of a `for range d.midiIn` loop.
+func rangeOverInputEnds(b *ssa.BasicBlock, midiIn *types.Var) bool {
+	if midiIn == nil {
+		return false
+	}
+	fn := b.Parent()
+	for _, blk := range fn.Blocks {
+		for _, in := range blk.Instrs {
+			nx, ok := in.(*ssa.Next)
+			if !ok {
+				continue
+			}
+			rg, ok := nx.Iter.(*ssa.Range)
+			if !ok || !derivesFromField(rg.X, midiIn, map[ssa.Value]bool{}) {
+				continue
+			}
+			if ifi, ok := blk.Instrs[len(blk.Instrs)-1].(*ssa.If); ok && ifi.Block().Succs[1].Dominates(b) {
+				return true
+			}
+		}
 	}
 	return false
 }
